@@ -691,6 +691,7 @@ func c07CorpusLayout(g c07Gap, sep string, r *Result) {
 
 func init() {
 	register("C07", func() *Check {
+		feTuneRuntime()
 		c07InitCorpus()
 		nseps := len(feSeparators)
 		return &Check{ID: "C07", Scenarios: []Scenario{
